@@ -603,7 +603,12 @@ func NormRel(t *Term, pol bool) Rel {
 			if !pol {
 				op = negOp(op)
 			}
-			return Rel{op, t.Args[0], t.Args[1]}
+			a, b := t.Args[0], t.Args[1]
+			// canonical orientation: constants (nil, zero, literals) on the right
+			if isConstLike(a) && !isConstLike(b) {
+				a, b, op = b, a, flipOp(op)
+			}
+			return Rel{op, a, b}
 		}
 	}
 	if pol {
@@ -668,3 +673,7 @@ func (r Rel) String() string {
 }
 
 var _ = token.ADD
+
+func isConstLike(t *Term) bool {
+	return t != nil && (t.Op == "const" || t.Op == "zero")
+}
